@@ -19,6 +19,12 @@ structure S where
   srvMode : Mode := .nullIP
   srvTtl : Nat := 10
   ups : List ((Host × QType) × Msg) := []
+  /-- production wiring: environment switches, block hosts (once given, the storage is the one the
+  builder creates), filtering groups and server groups, `filters.response_ttl` in nanoseconds -/
+  envSw : EnvSw := {}
+  blockHosts : Option (String × String) := none
+  wiring : Wiring := {}
+  respTtl : Int := 10000000000
 
 /-- The labels of a name in its wire spelling (letter case kept; the text may end in the root dot). -/
 def labels (s : String) : Host :=
@@ -94,11 +100,21 @@ def idx (name : String) : Nat := nat! (name.drop 1).toString
 def isIdxName (pre : Char) (name : String) : Bool :=
   name.length > 1 && name.front == pre && (name.drop 1).toString.all Char.isDigit
 
-def storageOf (s : S) : Storage :=
+def isIPText (s : String) : Option (Bool × String) :=
+  if s.contains ':' then some (false, s)
+  else if s.all (fun ch => ch.isDigit || ch == '.') then some (true, s)
+  else none
+
+def baseStorage (s : S) : Storage :=
   { lists := s.lists.filterMap fun p => if isIdxName 'l' p.1 then some (idx p.1, p.2) else none
     svcs := s.lists.filterMap fun p => if isIdxName 's' p.1 then some (idx p.1, p.2) else none
     sb := s.sb, adult := s.ad, newReg := s.nr
     genSS := lookupList s "g", ytSS := lookupList s "y", now := s.now }
+
+def storageOf (s : S) : Storage :=
+  match s.blockHosts with
+  | some (sbH, adH) => builtStorage s.envSw (host! sbH, isIPText sbH) (host! adH, isIPText adH) (baseStorage s)
+  | none => baseStorage s
 
 def serverOf (s : S) : Server := { st := storageOf s, mode := s.srvMode, ttl := s.srvTtl, grp := s.grpP }
 
@@ -182,11 +198,6 @@ def parsePeriods (tok : String) : List Period :=
     match p.splitOn ":" with
     | [a, b, o] => some { start := int! a, stop := int! b, off := int! o }
     | _ => none
-
-def isIPText (s : String) : Option (Bool × String) :=
-  if s.contains ':' then some (false, s)
-  else if s.all (fun ch => ch.isDigit || ch == '.') then some (true, s)
-  else none
 
 def parseRRs (name : Host) (s : String) : List RR :=
   (csv s).filterMap fun tok =>
@@ -273,6 +284,28 @@ def step (s : S) : List String → S × String
       else (cfgVariants e.grp (host! h)).map fun c' => { e with grp := c' }
     (s, showAlts (envs.map fun e' =>
       showMsg (serveDebug e' (host! h) (nat! qt)) ++ " | " ++ showReported (reportedVerdict e' (host! h) (nat! qt))))
+  | ["env", a, b, c, d, e, f] =>
+    ({ s with envSw := { adult := bool! a, sb := bool! b, nrd := bool! c, svc := bool! d, gss := bool! e, yss := bool! f } }, "ok")
+  | ["bhost", sbH, adH] => ({ s with blockHosts := some (sbH, adH) }, "ok")
+  | ["rttl", ms] => ({ s with respTtl := int! ms * 1000000 }, "ok")
+  | ["ygrp", id, rlOn, ids, pOn, ad, g, y, sbOn, dang, nr] =>
+    let yg : GroupYaml :=
+      { rlEnabled := bool! rlOn, rlIds := (csv ids).map idx, parEnabled := bool! pOn, blockAdult := bool! ad
+        generalSafeSearch := bool! g, youtubeSafeSearch := bool! y, sbEnabled := bool! sbOn
+        blockDangerous := bool! dang, blockNewlyRegistered := bool! nr }
+    ({ s with wiring := { s.wiring with groups := (id, yg) :: s.wiring.groups.filter (·.1 != id) } }, "ok")
+  | ["sgrp", sg, id] =>
+    ({ s with wiring := { s.wiring with serverGroups := (sg, id) :: s.wiring.serverGroups.filter (·.1 != sg) } }, "ok")
+  | ["usegrp", sg] =>
+    (match s.wiring.server (storageOf s) s.respTtl sg with
+     | some srv => ({ s with grpP := srv.grp, srvMode := srv.mode, srvTtl := srv.ttl }, "ok")
+     | none => (s, "no-group"))
+  | ["mwf", kind, h, qt] =>
+    let e := envOf (serverOf s) (whoOf s) (upstreamOf s)
+    let up : Host → QType → Option Msg := if kind == "uperr" then fun _ _ => none else fun a b => some (upstreamOf s a b)
+    (s, match serveFaulty e (kind == "cancel") up (host! h) (nat! qt) with
+        | none => "nothing"
+        | some m => showMsg m)
   | _ => (s, "bad-op")
 
 def main : IO Unit := loop step {}
